@@ -9,7 +9,7 @@ TXT = {
  "C02": ("TLC exhaustively explores the implementation-shaped send-side model H2Send (every interleaving of sends, reservations, WINDOW_UPDATE, SETTINGS up/down, resets with a frame parked in the codec) composed with the TLA+ credit ledger H2Wire!OutCredit; the model is bound to the code by replaying TLC-generated behaviours and comparing the statistics snapshot step by step; the same ledger is evaluated by TLC on every recorded real trace", "4 C02"),
  "C03": ("TLA+ receive-credit ledger (over-credit at every WINDOW_UPDATE, leak rules at every quiescence) evaluated by TLC on real traces where a scripted peer exhausts stream and connection windows exactly (padded, padding-only, on reset/refused/unaccepted streams)", "4 C03"),
  "C04": ("RFC 9113 5.1/6 reference automaton for emitted frames (H2Wire!OutLife) evaluated by TLC on every frame of every real trace, both roles", "4 C04"),
- "C05": ("TLA+ concurrency ledger (acknowledged limit, certainly-open streams, refusal obligations) evaluated by TLC on real traces, incl. a scripted peer changing MAX_CONCURRENT_STREAMS while streams are open", "4 C05"),
+ "C05": ("TLC exhaustive on the implementation model of the stream store H2Streams (MC_Streams: refused streams never reach the accept queue / the application, open => counted, counted <= limit, every closing path frees the slot) bound to the code by replaying TLC-generated behaviours with step-by-step snapshot comparison; TLA+ concurrency ledger (acknowledged limit, surfaced streams, refusal obligations, send-side limit and slot recycling) evaluated by TLC on real traces, incl. a scripted peer changing MAX_CONCURRENT_STREAMS while streams are open", "4 C05, 11.7"),
  "C06": ("strict executor (a task is polled only if its waker fired) makes a lost wakeup observable; TLA+ rule Quiescent => nothing outstanding evaluated by TLC at every final quiescence of cooperative runs; spec->impl conformance of MC_Send finds connection-task wakeups the model takes for granted", "4 C06"),
  "C07": ("TLA+ termination rule (ended connection leaves no operation pending) evaluated by TLC at final quiescence of real runs ending by GOAWAY, errors, EOF, drops", "4 C07"),
  "C08": ("panic / self-wake budget events are part of the trace alphabet that the TLA+ monitors reject; every simulated poll runs under catch_unwind", "4 C08"),
@@ -21,7 +21,8 @@ TXT = {
  "C15": ("TLA+ GOAWAY rules (monotone last-stream-id, covers surfaced streams, nothing new after GOAWAY) evaluated by TLC on real traces", "4 C15"),
  "C16": ("TLC exhaustive on H2Send + H2Api capacity rules (census invariant in EVERY reachable state: assigned never exceeds credit); model bound to code by step-by-step snapshot conformance; rules incl. pool/starvation evaluated by TLC on real traces with competing streams", "4 C16"),
  "C17": ("TLA+ reset ledger (one RST_STREAM, right code, none after clean close, no data after reset, others undisturbed) on real traces with resets at every position incl. partly written frames; peer error surfacing rules", "4 C17"),
- "C19": ("h2's own store-empty assertion and the guarded statistics snapshot as observations in the TLA+ trace alphabet", "4 C19"),
+ "C18": ("closed-form bounds over the endpoint's configuration (H2Bounds.tla: records not held by the application, buffered received events, queued frames, quota counters, CONTINUATION frames per block, owed acknowledgements) evaluated by TLC on every statistics snapshot of real executions under generated floods (dense snapshots after every poll of the connection task), small random limits, non-accepting applications and blocked writes; the store bound is derived and shown tight by TLC on the implementation model H2Streams (MC_Streams InvC18), which is bound to the code by snapshot conformance", "4 C18, 11.7"),
+ "C19": ("TLC exhaustive on H2Streams (MC_Streams: nothing kept once released, counters consistent with the records, everything idle after all handles are dropped in every order, no stale key) bound to the code by snapshot conformance; H2Bounds rules on every quiescence snapshot of real traces (forgotten records, reset-memory bound, counted <= open on the wire, idle flow-control values, idle client close, no premature close) plus h2's own store-empty assertion at teardown", "4 C19, 11.7"),
 }
 checks = []
 for pid in sorted(PLAN):
@@ -41,7 +42,7 @@ for pid in sorted(PLAN):
 claimed = set(PLAN)
 na = []
 props = [json.loads(l) for l in open('/verif/properties.jsonl')]
-NA_REASON = {}
+NA_REASON = {"C20": "check under construction in this round: the deterministic part (handle operations injected at the transport callbacks inside the connection's poll) and the threaded driver are being built; not claimed yet"}
 for pr in props:
     if pr["id"] not in claimed:
         na.append({"property_id": pr["id"], "reason": NA_REASON.get(pr["id"], "check under construction in this round (see DESIGN.md section 10); not claimed yet")})
